@@ -77,7 +77,21 @@ def wf_nlri(n):
         if any(not (0 <= l < 2 ** 20) for l in ls): return 'label outside 20 bits'
         if 24 * len(ls) + m > 255: return 'label stack of %d labels does not fit the one-octet NLRI length' % len(ls)
         return None
+    if t in (24, 26):
+        ls, rdb, m = n[1], n[2], n[4]
+        w = 32 if t == 24 else 128
+        if m > w: return 'VPN prefix length %d > %d' % (m, w)
+        if len(ls) == 0: return 'empty label stack'
+        if any(not (0 <= l < 2 ** 20) for l in ls): return 'label outside 20 bits'
+        if 24 * len(ls) + 64 + m > 255: return 'label stack of %d labels does not fit the one-octet NLRI length' % len(ls)
+        if len(rdb) != 8 or rdb[0] != 0 or rdb[1] > 2: return 'route distinguisher type'
+        return None
     return 'unmodelled NLRI'
+
+def rd_bytes(rd):
+    t, a, b = rd
+    if t == 0: return [0, 0] + be16(a) + be32(b)
+    return [0, t] + be32(a) + be16(b)
 
 # ---- failing-input classes of the wide part (decidable on what the harness prints of the failing item)
 RTC_FAM, LS_FAM, EVPN_FAM = (1 << 16) | 132, (16388 << 16) | 71, (25 << 16) | 70
@@ -144,22 +158,37 @@ def api_to_coq(x):
 
 def v6bytes(a): return [(a >> (8 * (15 - k))) & 255 for k in range(16)]
 
-def nlri_to_valx(n):
+def nlri_to_valx(n, out=True):
+    """the harness value of an internal NLRI: as printed (out, RD as its 8 bytes) or as given (RD as [type, admin, assigned])"""
     if n[0] == 6: return [6, v6bytes(n[1]), n[2]]
     if n[0] == 16: return [16, n[1], v6bytes(n[2]), n[3]]
+    if n[0] in (24, 26):
+        rd = rd_bytes(n[2]) if out else list(n[2])
+        return [n[0], n[1], rd, n[3] if n[0] == 24 else v6bytes(n[3]), n[4]]
     return n
+
+def rd_to_coq(rd):
+    return '(%s %s %s)' % (['RD2', 'RDIp', 'RD4'][rd[0]], cN(rd[1]), cN(rd[2]))
+
+def api_rd_to_coq(d):
+    if d[0] == 0: return 'ARdMissing'
+    if d[0] == 1: return '(ARd2 %s %s)' % (cN(d[1]), cN(d[2]))
+    if d[0] == 2: return '(ARdIp %s %s)' % (cstr(d[1]), cN(d[2]))
+    return '(ARd4 %s %s)' % (cN(d[1]), cN(d[2]))
 
 def nlri_to_coq(n):
     if n[0] == 4: return '(NV4 %s %s)' % (cN(n[1]), cN(n[2]))
     if n[0] == 6: return '(NV6 %s %s)' % (cN(n[1]), cN(n[2]))
     if n[0] == 14: return '(NLab4 %s %s %s)' % (clist([cN(l) for l in n[1]]), cN(n[2]), cN(n[3]))
     if n[0] == 16: return '(NLab6 %s %s %s)' % (clist([cN(l) for l in n[1]]), cN(n[2]), cN(n[3]))
+    if n[0] in (24, 26): return '(%s %s %s %s %s)' % ('NVpn4' if n[0] == 24 else 'NVpn6', clist([cN(l) for l in n[1]]), rd_to_coq(n[2]), cN(n[3]), cN(n[4]))
     raise ValueError(n)
 
 def api_nlri_to_coq(x):
     if x[0] == 0: return 'PMissing'
     if x[0] == 1: return '(PPrefix %s %s)' % (cstr(x[1]), cN(x[2]))
     if x[0] == 2: return '(PLabeled %s %s %s)' % (clist([cN(l) for l in x[1]]), cstr(x[2]), cN(x[3]))
+    if x[0] == 3: return '(PVpn %s %s %s %s)' % (clist([cN(l) for l in x[1]]), api_rd_to_coq(x[2]), cstr(x[3]), cN(x[4]))
     return 'POther'
 
 API_NAMES = {0: 'missing', 1: 'unknown', 2: 'origin', 3: 'as_path', 4: 'next_hop', 5: 'med', 6: 'local_pref',
@@ -285,21 +314,30 @@ def ipstr(rng, p_bad=0.2):
     if x < p_bad + 0.4 * (1 - p_bad): return ip4str(rng, 0)
     return S(rng.choice(GOOD_IP6))
 
+def gen_api_rd(rng):
+    t = rng.choice([1, 1, 2, 3, 0])
+    v16 = lambda: rng.choice([0, 1, 65000, 65535]) if rng.random() < 0.85 else rng.choice([65536, 2 ** 32 - 1])
+    if t == 0: return [0]
+    if t == 1: return [1, v16(), u32(rng)]
+    if t == 2: return [2, ip4str(rng, 0.15), v16()]
+    return [3, u32(rng), v16()]
+
 def gen_api_nlri_case(rng):
-    v = rng.choice([1, 1, 1, 2, 2, 2, 0])
+    v = rng.choice([1, 1, 1, 2, 2, 2, 3, 3, 3, 0])
     if v == 0: return {'k': 2, 'api': [0]}
     s = ipstr(rng)
     if rng.random() < 0.05: s = s + S('/8')
     ln = rng.choice([0, 1, 8, 24, 31, 32, 33, 64, 127, 128, 129, 255, 256, 257, 288, 300, 2 ** 32 - 1])
     if v == 1: return {'k': 2, 'api': [1, s, ln]}
-    nl = rng.choice([0, 1, 1, 1, 2, 3, 5, 9, 10, 11, 40])
+    nl = rng.choice([0, 1, 1, 1, 2, 3, 5, 6, 7, 8, 9, 10, 11, 40])
     labels = [rng.choice([0, 3, 100, 2 ** 20 - 1, 2 ** 20, 2 ** 32 - 1, rng.randrange(2 ** 20)]) for _ in range(nl)]
+    if v == 3: return {'k': 2, 'api': [3, labels, gen_api_rd(rng), s, ln]}
     return {'k': 2, 'api': [2, labels, s, ln]}
 
 def gen_nlri_case(rng):
-    t = rng.choice([4, 4, 6, 6, 14, 16])
+    t = rng.choice([4, 4, 6, 6, 14, 16, 24, 26])
     bad = rng.random() < 0.08
-    if t in (4, 14):
+    if t in (4, 14, 24):
         m = rng.choice([0, 1, 8, 9, 24, 31, 32]) if not bad else rng.choice([33, 40, 255])
         a = u32(rng)
     else:
@@ -307,7 +345,12 @@ def gen_nlri_case(rng):
         a = v6_rand(rng)
     if t in (4, 6): return {'k': 3, 'n': [t, a, m]}
     nl = rng.choice([1, 1, 2, 3, 5]) if not bad else rng.choice([0, 11])
+    if t in (24, 26) and not bad: nl = rng.choice([1, 1, 2]) if m > 100 else nl
     labels = [rng.choice([0, 3, 100, 2 ** 20 - 1, rng.randrange(2 ** 20)]) for _ in range(nl)]
+    if t in (24, 26):
+        rt = rng.choice([0, 1, 2])
+        rd = (rt, rng.choice([0, 1, 65535]) if rt == 0 else u32(rng), u32(rng) if rt == 0 else rng.choice([0, 7, 65535]))
+        return {'k': 3, 'n': [t, labels, list(rd), a, m]}
     return {'k': 3, 'n': [t, labels, a, m]}
 
 def gen_local_path_case(rng):
@@ -413,14 +456,42 @@ class Prop:
     pid = 'C17'
     props_file = 'Props/C17.v'
     required_theorems = ['attr_roundtrip_up_to_flags', 'attr_roundtrip_core_outside_known', 'attr_roundtrip_core_refuted', 'from_api_total', 'from_api_preserves_wf', 'wire_values_are_wf', 'wf_is_safe_downstream', 'api_accepted_is_safe', 'nlri_roundtrip_core', 'net_from_api_preserves_wf', 'nlri_encode_safe', 'local_path_accepts_wf']
-    correspondence_name = ('Model/Api.v (wire_accept, to_api, from_api, consumers) vs daemon/src/convert.rs attr_to_api/attr_from_api, '
-                           'packet Attribute::{decode,as_path_length,encode}, table RibEntry::cmp via Table::insert (harness/daemon/convert_hx.rs)')
-    rule = ('cases = (kind 0) one wire attribute (flags, code, value) decoded by PeerCodec::parse_message then round-tripped through the API form; '
-            '(kind 1) one API attribute message given to attr_from_api, then as_path_length / encode / attr_to_api / Table::insert next to a competitor; '
-            'a case is non-trivial when the value is held (kind 0) or accepted (kind 1); distinct = distinct case contents')
+    correspondence_name = ('Model/Api.v (wire_accept, to_api, from_api, net_from_api, nlri_to_api, local_path, as_path_length, encode_attr, rib_cmp, encode_nlri) vs '
+                           'daemon/src/convert.rs attr_to_api / attr_from_api / nlri_to_api / net_from_api, event/grpc.rs GrpcService::local_path, '
+                           'packet Attribute::{decode via PeerCodec::parse_message, as_path_length, encode_to_bytes}, Nlri::encode_to_bytes, '
+                           'table RibEntry::cmp via Table::insert (harness/daemon/convert_hx.rs, grpc_hx.rs)')
+    rule = ('case kinds: (0) one wire attribute (flags, code, value) decoded by PeerCodec::parse_message, then attr_to_api / attr_from_api; '
+            '(1) one API attribute message through attr_from_api, then as_path_length / encode / attr_to_api / Table::insert next to a competitor path; '
+            '(2) one API NLRI message through net_from_api, then Nlri::encode; (3) one internal IPv4/IPv6/labeled NLRI through nlri_to_api / net_from_api; '
+            '(5) a whole api::Path through GrpcService::local_path, then Table::insert; these five kinds are modelled and compared with the model value for value. '
+            '(4) the wide part: a whole UPDATE of any of 19 address families with any attribute kinds (tunnel-encap, prefix-SID, BGP-LS, AIGP, AS4_*, unknown), '
+            'every decoded attribute and NLRI round-tripped through the API form; NOT modelled, judged by the Spec oracle only (canon maps its observation to []), '
+            'so it adds to "evaluations" and "traces_validated_against_impl" without being a model comparison: see input_distribution tags wide:*. '
+            'A case is non-trivial when the value is held / accepted (kinds 0,1,2,5), decodable (kind 3), or the UPDATE decodes to at least one attribute or NLRI (kind 4); '
+            'distinct = distinct case contents. Generators: per attribute type mostly-valid values plus boundary lengths (0, 255, 256 numbers; 4k+1 bytes), '
+            'a grid Unknown{type 0..41 and beyond u8} x lengths 0..32, flags with PARTIAL / EXTENDED / reserved bits and wrong class bits, '
+            'valid and malformed IPv4/IPv6 address strings (every listed spelling through NextHop and Prefix), out-of-range enums and u32 fields, '
+            'label stacks of 0..40 labels, prefix lengths around 32/128/255/256.')
     exhaustive = {'quick': False, 'thorough': False}
-    trusted_base = []
-    assumptions = []
+    trusted_base = [
+        'the Ipv6Addr textual form (Display / FromStr) is not proved: the theorems assume v6_contract / v6_noslash / v6_range (Proofs/ApiRt.v, Proofs/ApiNlri.v: '
+        'print-then-parse gives the address back, a printed address is not an IPv4 string and holds no slash, a parsed address is below 2^128); a toy instance shows the '
+        'assumptions are satisfiable, and the run uses the instance v6_print / v6_parse of Model/Api.v, compared with the real std::net code on every generated spelling',
+        'Ipv4Addr Display / FromStr, format!("{}/{}") + split + u8::from_str of the Prefix arm, f32::from_bits/to_bits (bit-preserving), prost message types '
+        '(uint32 fields below 2^32: api_in_range) are modelled by hand from their documentation; bit tests on u8 values are written arithmetically in the model',
+        'what is modelled of attr_to_api / attr_from_api is the core: ORIGIN, AS_PATH, NEXT_HOP, MED, LOCAL_PREF, ATOMIC_AGGREGATE, AGGREGATOR, COMMUNITIES, ORIGINATOR_ID, '
+        'CLUSTER_LIST, EXTENDED_COMMUNITIES (all twelve variants of read_extcom/write_extcom), LARGE_COMMUNITIES, Unknown (incl. MP_REACH/MP_UNREACH/AS4_PATH/AS4_AGGREGATOR/AIGP '
+        'and opaque); NLRI: Prefix and LabeledPrefix arms. TUNNEL_ENCAP, PREFIX_SID, BGP-LS attribute, MpReach message, VPN / EVPN / flowspec / MUP / SR-policy / RTC / BGP-LS NLRI '
+        'are covered by the wide differential part only (sampling, no proof): the property is claimed partial for them',
+        'the wire decoder is modelled only as far as C17 needs it (Attribute::decode in four-octet-AS form and the per-attribute admission of the UPDATE arm); '
+        'two-octet-AS sessions, treat-as-withdraw and NLRI decoding are exercised by the wide part only',
+        'the comparator is modelled for one comparison between paths of two sources of equal role that are not stale (what Table::insert does against a destination holding one path); '
+        'policy evaluation (apply_import) on API-built values is not run here (property C14)',
+    ]
+    assumptions = [
+        'API messages arrive as prost decoded them (uint32 below 2^32, bytes below 256, strings are the byte strings the generators use: ASCII)',
+        'internal values are those a four-octet-AS session can decode (wf_attr / wf_nlri, proved of the decoder model: wire_values_are_wf)',
+    ]
 
     # ---- json
     def case_to_json(self, c): return json.loads(json.dumps(c))
@@ -444,7 +515,7 @@ class Prop:
                 x = [9, [x[1][1]] * x[1][2]]
             return [1, x]
         if c['k'] == 2: return [2, c['api']]
-        if c['k'] == 3: return [3, nlri_to_valx(c['n'])]
+        if c['k'] == 3: return [3, nlri_to_valx(c['n'], out=False)]
         if c['k'] == 4: return [4, c['opts'], c['msg']]
         if c['k'] == 5: return [5, c['fam'], c['nlri'], c['attrs'], c['id']]
         raise ValueError(c)
@@ -645,7 +716,7 @@ class Prop:
             return ['api', 'api:%s:%s' % (API_NAMES.get(c['api'][0], 'other'), st)]
         if c['k'] == 2:
             st = 'panic' if obs == [-1] else 'accepted' if obs[0] == 1 else 'rejected'
-            return ['api_nlri', 'api_nlri:%s:%s' % ({0: 'missing', 1: 'prefix', 2: 'labeled'}.get(c['api'][0]), st)]
+            return ['api_nlri', 'api_nlri:%s:%s' % ({0: 'missing', 1: 'prefix', 2: 'labeled', 3: 'vpn'}.get(c['api'][0]), st)]
         if c['k'] == 3:
             return ['nlri', 'nlri:%d:%s' % (c['n'][0], 'wf' if not wf_nlri(nlri_to_valx(c['n'])) else 'not_decodable')]
         if c['k'] == 5:
